@@ -152,6 +152,30 @@ def ellipse_pixels(cx, cy, rx, ry, theta, ix0, iy0, nx, ny, margin=1e-6, full=Tr
     # corners counter-clockwise: (lo,lo) (hi,lo) (hi,hi) (lo,hi); the map has positive determinant
     cu = [U[:-1, :-1], U[:-1, 1:], U[1:, 1:], U[1:, :-1]]
     cv = [V[:-1, :-1], V[:-1, 1:], V[1:, 1:], V[1:, :-1]]
+    out = _overlap_from_corners(cu, cv, rx, ry, margin, full, dtype)
+    out.x0, out.y0 = ix0, iy0
+    return out
+
+
+def ellipse_pixel_list(cx, cy, rx, ry, theta, ix, iy, margin=1e-6, full=True, dtype=np.float64):
+    """Same as ``ellipse_pixels`` for an arbitrary list of pixels (integer arrays ix, iy of equal shape)."""
+    ix = np.asarray(ix)
+    iy = np.asarray(iy)
+    xl = (ix.astype(dtype) - dtype(0.5)) - dtype(float(cx))
+    yl = (iy.astype(dtype) - dtype(0.5)) - dtype(float(cy))
+    xh = (ix.astype(dtype) + dtype(0.5)) - dtype(float(cx))
+    yh = (iy.astype(dtype) + dtype(0.5)) - dtype(float(cy))
+    c, s = dtype(math.cos(theta)), dtype(math.sin(theta))
+    cu, cv = [], []
+    for gx, gy in ((xl, yl), (xh, yl), (xh, yh), (xl, yh)):
+        cu.append((c * gx + s * gy) / dtype(rx))
+        cv.append((-s * gx + c * gy) / dtype(ry))
+    out = _overlap_from_corners(cu, cv, rx, ry, margin, full, dtype)
+    out.x0 = out.y0 = None
+    return out
+
+
+def _overlap_from_corners(cu, cv, rx, ry, margin, full, dtype):
     R = [np.sqrt(cu[k] * cu[k] + cv[k] * cv[k]) for k in range(4)]
     dmax = np.maximum(np.maximum(R[0], R[1]), np.maximum(R[2], R[3]))
     dmin = np.full(dmax.shape, np.inf, dtype=dtype)
@@ -169,7 +193,7 @@ def ellipse_pixels(cx, cy, rx, ry, theta, ix0, iy0, nx, ny, margin=1e-6, full=Tr
     cls[dmin > 1.0] = -1
     robust = ((cls == 1) & (dmax < 1.0 - g)) | ((cls == -1) & (dmin > 1.0 + g))
     out = PixelOverlap()
-    out.cls, out.robust, out.x0, out.y0 = cls, robust, ix0, iy0
+    out.cls, out.robust = cls, robust
     ref = np.where(cls == 1, 1.0, 0.0)
     arc = np.zeros(dmax.shape)
     sel = np.ones(dmax.shape, bool) if full else ~robust
@@ -462,6 +486,9 @@ def selftest(verbose=False):
     p1 = ellipse_pixels(0.137, 0.291, 2.5, 0.73, math.pi / 2, -4, -4, 9, 9)
     p2 = ellipse_pixels(0.137, 0.291, 0.73, 2.5, 0.0, -4, -4, 9, 9)
     need('ellipse_rot90_swap', np.abs(p1.ref - p2.ref).max(), 1e-14)
+    gx, gy = np.meshgrid(np.arange(-4, 5), np.arange(-4, 5))
+    p3 = ellipse_pixel_list(0.137, 0.291, 2.5, 0.73, math.pi / 2, gx, gy)
+    need('pixel_list_equals_grid', np.abs(p3.ref - p1.ref).max() + float((p3.cls != p1.cls).any()), 0.0)
     # 8 float64 vs extended precision on the hardest scale (r = 1000)
     if np.finfo(np.longdouble).eps < 1e-18:
         w = 0.0
